@@ -1311,3 +1311,52 @@ def rt_pok_remarks(req):
 RT['pok_remarks'] = rt_pok_remarks
 RT['pok_remarks_c12'] = lambda req: rt_pok_remarks(('rt:pok_remarks', 'c12'))
 RT['pok_remarks_c18'] = lambda req: rt_pok_remarks(('rt:pok_remarks', 'c18'))
+
+
+class _OddEq(object):
+    def __eq__(self, other): return 'yes'
+    def __hash__(self): return 1
+    def __repr__(self): return 'ODD'
+
+
+class _ArrayLike(object):
+    def __eq__(self, other): return self
+    def __ne__(self, other): return self
+    def __bool__(self): raise ValueError('truth value of an array is ambiguous')
+    __hash__ = object.__hash__
+    def __repr__(self): return 'ARR'
+
+
+def rt_eq_odd_annotations(req):
+    """C14: comparison of returned objects whose annotations have an unusual `==` (NaN: not equal to itself; an `__eq__` that
+    returns a non-bool; an array-like whose result has no truth value): `p == p` and `s == s` are True, `==` / `!=` between two
+    retrievals of the same function return the bools plain inspect objects return, and never raise"""
+    from sigtools import signatures
+    import sigtools
+    problems = []
+    nan = float('nan')
+    odd, arr = _OddEq(), _ArrayLike()
+
+    def f(a: nan, b: odd = 1) -> nan: pass
+
+    def g(a) -> odd: pass
+
+    def h(a: arr) -> arr: pass
+    with warnings.catch_warnings():
+        warnings.simplefilter('ignore')
+        for fl, fn in (('f (NaN annotations)', f), ('g (-> an object whose == returns a str)', g), ('h (array-like annotations)', h)):
+            for gl, get in (('signatures.signature', signatures.signature), ('sigtools.signature', sigtools.signature)):
+                s1, s2 = get(fn), get(fn)
+                i1, i2 = inspect.signature(fn), inspect.signature(fn)
+                for label, mine, ref in (('s == s', lambda: s1 == s1, lambda: i1 == i1), ('s == s2', lambda: s1 == s2, lambda: i1 == i2),
+                                         ('s != s2', lambda: s1 != s2, lambda: i1 != i2), ('s != s', lambda: s1 != s1, lambda: i1 != i1),
+                                         ('p == p', lambda: s1.parameters['a'] == s1.parameters['a'], lambda: i1.parameters['a'] == i1.parameters['a']),
+                                         ('p != p', lambda: s1.parameters['a'] != s1.parameters['a'], lambda: i1.parameters['a'] != i1.parameters['a']),
+                                         ('hash(s) == hash(s2)', lambda: hash(s1) == hash(s2), lambda: hash(i1) == hash(i2))):
+                    got, want = _try(mine), _try(ref)
+                    if want[0] == 'ok' and isinstance(want[1], bool) and not (got[0] == 'ok' and isinstance(got[1], bool) and got[1] == want[1]):
+                        problems.append('odd-annotation-eq: %s of %s: %s -> %r, plain inspect objects -> %r' % (gl, fl, label, got, want))
+    return ('ok', tuple(problems[:6]), 'eq_odd_annotations')
+
+
+RT['eq_odd_annotations'] = rt_eq_odd_annotations
